@@ -17,6 +17,7 @@ RULE = (
     "records with port/weight/priority unchanged and target without trailing dot; sync == async. Plus the public API without `server` for 60 lists: the first connection goes to (chosen target, 135). "
     "Every list is distinct by construction; non-trivial = lists with >= 2 records."
     ' Also answers parsed from wire whose ADDITIONAL section carries A / AAAA records for every subset of the targets (all ordered lists of 1..3 records); 1..3 async lookups in flight at once with a suspending resolver on three successive event loops.'
+    ' Also answer sets of 15..255 records with the best record at the front, around positions 16 / 32 / 64, in the middle and at the end, and lists in which every second target is the root name.'
 )
 ASSUME = ["dns.resolver.resolve / dns.asyncresolver.resolve are the library's DNS entry points (seam)"]
 BOUND = {"quick": "all 66,429 ordered lists, both flavours", "thorough": "same + full weight domain {0,1,65535} variant"}
